@@ -3,15 +3,15 @@
    orb inlined); N, positive, nat stay inductive. *)
 From Coq Require Import NArith List Extraction ExtrOcamlBasic.
 From RS.Gen Require Import Prelude GenConsts.
-From RS.Model Require Import Field Tables Sched Codec Layout Kernels Machine Spec.
+From RS.Model Require Import Field Tables Sched Codec Layout Kernels Machine Admissible Spec.
 Extraction Language OCaml.
 Set Extraction KeepSingleton.
 Extraction "model.ml"
-  Machine.step Machine.init Machine.run
+  Machine.step Machine.init Machine.run Admissible.admissible
   Sched.fft Sched.ifft Sched.shard_ops Sched.sym_ops Sched.formal_derivative
   Tables.eval_poly Tables.skew_tbl Tables.log_walsh_tbl Field.exp_tbl Field.log_tbl
   Field.tget Field.tset Field.tempty Field.mul Field.fmul Field.fdiv
   Kernels.mul_block Kernels.mul16 Kernels.mul128_lo Kernels.mul128_hi
   Layout.group_syms Layout.group_bytes Layout.syms_of_bytes Layout.bytes_of_syms
-  Spec.recovery_high_spec Spec.recovery_low_spec Spec.lch_eval Spec.locator_log Spec.rmax Spec.envelopeb
+  Spec.recovery_high_spec Spec.recovery_low_spec Spec.cauchy_high_row Spec.cauchy_low_row Spec.row_apply Spec.lch_eval Spec.locator_log Spec.rmax Spec.envelopeb
   N.add N.mul N.div_eucl N.eqb.
